@@ -2,7 +2,7 @@
    Only theorem statements, each closed by an exact lemma, and Print Assumptions. *)
 Require Import Verif.Common.Base Verif.Common.LockEv.
 Require Import Verif.Model.C20 Verif.Spec.C20 Verif.Proof.C20.
-Require Import Verif.Proof.C20_race Verif.Proof.C20_lin Verif.Proof.C20_ns Verif.Proof.C20_hist.
+Require Import Verif.Proof.C20_race Verif.Proof.C20_lin Verif.Proof.C20_ns Verif.Proof.C20_hist Verif.Proof.C20_nsgen.
 Open Scope Z_scope.
 
 (* ---- back-off: attempts 0..30, durations in ns on int64 ---- *)
@@ -137,6 +137,41 @@ Theorem C20_namespaced_two_goroutines_no_lost_update :
 Proof. exact ns_no_lost_update_new. Qed.
 Print Assumptions C20_namespaced_two_goroutines_no_lost_update.
 
+(* the general statement: ANY number of goroutines, each performing any sequence of
+   Namespaced.Register / AddNamespace / Get operations (ns_op), every operation executing an
+   arbitrary event list that is disciplined on the one lock m (wf_progs) and has the check-then-act
+   shape on the outer register obj (cta_ok: every mutating call under the WRITE lock, after a
+   lookup made in the same critical section), EVERY schedule, every reachable state s: a
+   completed Register whose result says that it stored its name (ns_stored: the two results the
+   real control flow can end with) has its name present in its namespace.  Proved by an invariant:
+   a thread that missed the namespace under the write lock knows it is still missing, so every
+   store fills an existing namespace or creates a missing one - the compound operation is atomic *)
+Theorem C20_namespaced_no_lost_registration :
+  forall (m obj : string) progs (dat : string -> option nsmap) sched s t th ns name v body r,
+    wf_progs m progs -> ns_prog_ok obj progs -> (forall o, dat o <> None) ->
+    run (init progs dat) sched = Some s ->
+    nth_error (s_threads s) t = Some th -> In (ns_op (KReg ns name v) body, r) (t_log th) -> ns_stored r ->
+    ns_present s obj ns name.
+Proof. exact ns_no_lost. Qed.
+Print Assumptions C20_namespaced_no_lost_registration.
+
+(* ... and no step of any operation (AddNamespace included) ever removes a name that is present:
+   a namespace that has registrations is never replaced or emptied *)
+Theorem C20_namespaced_monotone :
+  forall (m obj : string) progs (dat : string -> option nsmap) sched s t s' ns name,
+    wf_progs m progs -> ns_prog_ok obj progs -> (forall o, dat o <> None) ->
+    run (init progs dat) sched = Some s -> step s t = Some s' ->
+    ns_present s obj ns name -> ns_present s' obj ns name.
+Proof. exact ns_monotone. Qed.
+Print Assumptions C20_namespaced_monotone.
+
+(* bridge to the regenerated obligations (Generated/Facts_locks_*.v: all_paths_disciplined,
+   all_paths_one_lock): a path that passes them is a well-formed body of the theorems above *)
+Theorem C20_facts_bridge : forall (D X : Type) (m : string) (o : @op D X),
+  disciplined (o_body o) = true -> one_lock m (o_body o) = true -> wf_op m o.
+Proof. intros D X m o H1 H2. split; [exact H1|rewrite <- one_lock_locks_named; exact H2]. Qed.
+Print Assumptions C20_facts_bridge.
+
 (* documented witness about an unlocked write (the shared *rand.Rand of backoff.jitter before the
    repair): undisciplined, and two goroutines reach a racing state in which the write destroys
    the object *)
@@ -162,6 +197,17 @@ Theorem C20_oracle_history_reflects : forall init ws k res inv ret,
   valid_read init ws k res inv ret = true <-> ValidRead init ws k res inv ret.
 Proof. exact valid_read_iff. Qed.
 Print Assumptions C20_oracle_history_reflects.
+
+(* the sequential registry model meets the history oracle, for every initial contents and every
+   sequence of register / get / clone operations: the history the model produces (operation j on the
+   tickets 2j+1, 2j+2, lookup results and snapshots as computed by seq_run) passes hist_ok, and its
+   final contents pass final_ok - so a CSeq case whose observation agrees with the model can never
+   fail the property oracle (no false alarm from the oracle on sequential use) *)
+Theorem C20_model_meets_oracle_history : forall init ops,
+  hist_ok init (seq_hist 0 (fst (seq_run init ops))) = true /\
+  final_ok init (seq_hist 0 (fst (seq_run init ops))) (snd (seq_run init ops)) = true.
+Proof. exact seq_model_meets_history_oracle. Qed.
+Print Assumptions C20_model_meets_oracle_history.
 
 (* the hypotheses are met by the event lists of register.Untyped *)
 Example C20_ex_untyped_wf : forall k v,
@@ -199,3 +245,39 @@ Proof. exact ex_reader_blocked. Qed.
 (* the old sweep does find the loss: the bounded checker is not vacuous *)
 Example C20_ex_old_sweep_finds_loss : forallb (complete_ok ns_register_old) (all_scheds 2 8) = false.
 Proof. exact ns_old_sweep_finds_loss. Qed.
+
+(* the paths of Namespaced.Register / AddNamespace / Get as regenerated today meet every
+   hypothesis of the general theorem (and LockEv.calls_atomic) *)
+Example C20_ex_ns_paths_today :
+  forallb (fun l => disciplined l && locks_named "mutex" l && cta_ok "data" l && calls_atomic l) ns_paths_today = true.
+Proof. vm_compute. reflexivity. Qed.
+
+(* non-vacuity of the general theorem: three goroutines (Register a, AddNamespace + Register b,
+   Register c) on one new namespace, one interleaved schedule: all complete, the results are
+   "stored" (one created the namespace, two found it) and the three names are there *)
+Definition ex_ns3 : list (list (@op nsmap nres)) :=
+  let pa := [LLock "mutex"; LSafeCall "data" "Get"; LUnlock "mutex"] in
+  let pb := [LLock "mutex"; LSafeCall "data" "Get"; LSafeCall "data" "Register"; LUnlock "mutex"] in
+  [ [ns_op (KReg "ns" "a" 1%Z) pb]; [ns_op (KAdd "ns") pb; ns_op (KReg "ns" "b" 2%Z) pa]; [ns_op (KReg "ns" "c" 3%Z) pb] ].
+Definition ex_ns3_sched : list nat :=
+  [0; 1; 2; 0; 0; 0; 0; 0; 1; 1; 1; 1; 1; 1; 2; 2; 2; 2; 2; 1; 1; 1; 1].
+Example C20_ex_ns3 :
+  match run (init ex_ns3 (fun _ => Some [])) ex_ns3_sched with
+  | Some s => (finished s, s_data s "data",
+               map (fun th => map snd (t_log th)) (s_threads s))
+  | None => (false, None, [])
+  end =
+  (true, Some [("ns", [("b", 2%Z); ("c", 3%Z); ("a", 1%Z)])],
+   [[RVal NStored]; [RVal NFoundT; RVal NFoundT]; [RVal NFoundT]]).
+Proof. vm_compute. reflexivity. Qed.
+
+(* why cta_ok asks for the WRITE lock: a compound operation under a READ lock passes
+   LockEv.disciplined, one_lock and calls_atomic, fails cta_ok, and loses a registration *)
+Definition rlock_body : list lev := [LRLock "mutex"; LSafeCall "data" "Get"; LSafeCall "data" "Register"; LRUnlock "mutex"].
+Example C20_ex_calls_atomic_rlock :
+  (disciplined rlock_body && one_lock "mutex" rlock_body && calls_atomic rlock_body, cta_ok "data" rlock_body) = (true, false) /\
+  option_map (fun s => (finished s, s_data s "data"))
+    (run (init [[ns_op (KReg "ns" "a" 1%Z) rlock_body]; [ns_op (KReg "ns" "b" 2%Z) rlock_body]] (fun _ => Some []))
+         [0; 1; 0; 1; 0; 1; 0; 1; 0; 1; 0; 1]) =
+  Some (true, Some [("ns", [("b", 2%Z)])]).
+Proof. split; vm_compute; reflexivity. Qed.
